@@ -41,5 +41,30 @@ for d in sorted(glob.glob(os.path.join(HOME, "seeded", "C*-s*"))):
     other = r.get("caught_by_other_check")
     cell = lambda v: "caught" if v else ("missed by this check; caught by " + other["check"] if other else "MISSED")
     out.append(f"| {sid} | {meta.get('summary', '')[:230].replace('|', '/')} | {meta.get('needs', '')[:160].replace('|', '/')} | {cell(first)} | {cell(now)} | {notes.get(sid, '-')} |\n")
+out.append("\n### 10.9 Genuine defects of the pinned tree: repairs and open findings (from `known_findings.json`)\n")
+out.append("Every row was first reported by the registered check on the then-unchanged tree, with the witness kept under `replays/`. "
+           "`fixed` rows name the `fix:` commit in /repo (one per root cause; the unedited 3002-test baseline is green after each); their witnesses "
+           "are replayed on every run as regressions and suppress nothing. `open` rows are printed as `KNOWN-FINDING:` lines, matched by signature, "
+           "and the affected obligation has a restricted-domain twin that runs with no exclusion.\n\n")
+import subprocess
+def subject(c):
+    try:
+        return subprocess.run(["git", "-C", "/repo", "log", "-1", "--format=%s", c], capture_output=True, text=True).stdout.strip()
+    except Exception:
+        return ""
+byc = {}
+for e in kf:
+    if e["status"] == "fixed":
+        byc.setdefault((e["property"], e.get("commit", "?")), []).append(e)
+out.append("| property | commit | commit subject | signatures repaired |\n|---|---|---|---|\n")
+for (prop, c), es in sorted(byc.items()):
+    out.append(f"| {prop} | {c} | {subject(c).replace('|', '/')} | {len(es)}: " + "; ".join('`' + e['signature'] + '`' for e in es[:3]) + (" …" if len(es) > 3 else "") + " |\n")
+out.append("\nOpen findings (not repaired: no small, safe patch; reasons in the per-property notes above):\n\n")
+byp = {}
+for e in kf:
+    if e["status"] == "open":
+        byp.setdefault(e["property"], []).append(e)
+for prop, es in sorted(byp.items()):
+    out.append(f"* **{prop}** ({len(es)} signature(s)): " + "; ".join('`' + e['signature'] + '` — ' + e.get('what', '')[:160].replace('\n', ' ') for e in es[:4]) + (" …" if len(es) > 4 else "") + "\n")
 open(p, "w").write(s + "".join(out))
 print("DESIGN.md regenerated tail:", len(out), "blocks")
